@@ -28,7 +28,7 @@ PYTEST = True     # thorough tier also runs the repository's own tests under the
 MANDATORY = ["judged:truth-table:ctor", "judged:truth-table:json", "judged:truth-table:cicJE", "contract:plog.from_json",
              "contract:Imply.from_cicJE"] + ["count:connective:" + c for c in CONNECTIVES] + \
             ["count:cicJE:" + r for r in ["REQUIRES_ALL", "REQUIRES_ANY", "ONE_OR_NONE", "FORBIDS_ALL", "REQUIRES_EXCLUSIVELY"]] + \
-            ["count:judged-although-errors()-nonempty", "count:json:AtMost-value-0"]
+            ["count:judged-although-errors()-nonempty", "count:json:AtMost-value-0", "count:configurator-any-xor"]
 NEGATING = {"Not", "Imply", "XNor", "AtMost"}
 LEAVES = ["a", "b", "c", "d", "e", "f", "g", "h"]
 COLLIDING = ["a", "b", "c", "ab", "bc", "abc", "1", "2", "12", "22", "a1", "1a"]
@@ -73,7 +73,7 @@ def json_ok(r):
     for n in refmodel.recipe_nodes(r):
         if n["k"] == "AtLeast" and n.get("sign") is not None and n["sign"] != (1 if n["value"] > 0 else -1):
             return False
-        if n["k"] in ("ref", "neg"):
+        if n["k"] in ("ref", "neg", "ccAny", "ccXor"):
             return False
     return True
 
@@ -320,6 +320,16 @@ def gen_case(rng, tier, ctx, i):
         if rec is None:
             return None
     rec = json.loads(json.dumps(recipes.strip(rec)))
+    if rng.random() < 0.2:
+        # the configurator's Any / Xor are disjunction / exactly-one too; a default (a leaf, or one of the compound arguments
+        # named by its id) must not change the truth function
+        for n in refmodel.recipe_nodes(rec):
+            if n["k"] in ("Any", "Xor") and len(n["args"]) >= 2 and rng.random() < 0.6:
+                n["k"] = "ccAny" if n["k"] == "Any" else "ccXor"
+                cand = [a["id"] for a in n["args"] if a.get("id")]
+                if cand and rng.random() < 0.8:
+                    n["default"] = [rng.choice(cand)]
+                ctx.count("count:configurator-any-xor")
     if rng.random() < 0.3:
         for n in refmodel.recipe_nodes(rec):
             if n["k"] in ("AtLeast", "AtMost") and rng.random() < 0.5:
